@@ -51,8 +51,7 @@ TRUSTED = [
     "hash-seed differential is the backstop",
     "whole-generator byte determinism is NOT proved: it is the differential oracle of this run "
     "(sha256 of every file across PYTHONHASHSEED 0/1/2/random, fresh vs warm process, two roots)",
-    "difflib.unified_diff(a, b) is empty iff a == b; Path.read_text universal-newline translation; str.splitlines "
-    "boundary set as transcribed in Diff.v (validated by the diff stream)",
+    "file contents are compared as bytes; the model compares the code points of the (UTF-8) text (validated by the diff stream)",
 ]
 
 
